@@ -1035,3 +1035,38 @@ func init() {
 	addControl(control{Prop: "C04", Name: "required-looks-at-the-pointer", Rule: "R04i", Kind: "mutant", Quick: true,
 		File: "validator.go", Old: "	val := chaseValue(reflect.ValueOf(v))\n\n	// strings, also of a named string type\n", New: "	val := reflect.ValueOf(v)\n\n	// strings, also of a named string type\n", Expect: "R04i/ucfg.validateNonEmptyWithAllowNil"})
 }
+
+func init() {
+	// 04c93da: the map branch of reifyValue hands the field's validators on
+	addControl(control{Prop: "C04", Name: "new-map-built-without-validators", Rule: "R04a", Kind: "mutant", Quick: true,
+		File: "reify.go", Old: "		if err := reifyMap(opts.opts, newMap, sub, opts.validators); err != nil {\n", New: "		if err := reifyInto(opts.opts, newMap, sub); err != nil {\n", Expect: "R04a/ucfg.reifyValue"})
+	addControl(control{Prop: "C04", Name: "new-map-built-with-no-validators-at-all", Rule: "R04a", Kind: "mutant",
+		File: "reify.go", Old: "		if err := reifyMap(opts.opts, newMap, sub, opts.validators); err != nil {\n", New: "		if err := reifyMap(opts.opts, newMap, sub, nil); err != nil {\n", Expect: "R04a/ucfg.reifyValue"})
+	addControl(control{Prop: "C04", Name: "new-map-validators-in-a-local", Rule: "R04a", Kind: "refactor",
+		File: "reify.go", Old: "		if err := reifyMap(opts.opts, newMap, sub, opts.validators); err != nil {\n", New: "		vs := opts.validators\n		if err := reifyMap(opts.opts, newMap, sub, vs); err != nil {\n"})
+}
+
+func init() {
+	// 4069967: reifyMap names kept entries by key.String(); the key kind is known from the map's key type
+	addControl(control{Prop: "C09", Name: "kept-entries-named-without-key-kind-test", Rule: "R09c", Kind: "mutant", Quick: true,
+		File: "reify.go", Old: "	if to.Type().Key().Kind() != reflect.String {\n		return raiseKeyInvalidTypeUnpack(to.Type(), from)\n	}\n\n	if to.IsNil() {", New: "	if to.IsNil() {", Expect: "R09c/ucfg.reifyMap"})
+	addControl(control{Prop: "C09", Name: "kept-entries-key-kind-test-on-another-map", Rule: "R09c", Kind: "mutant",
+		File: "reify.go", Old: "	keys := to.MapKeys()\n	sort.Slice(keys, func(i, j int) bool { return mapKeyLess(keys[i], keys[j]) })\n	for _, key := range keys {\n		if _, named := fields[key.String()]; named {", New: "	keys := reflect.ValueOf(opts.env).MapKeys()\n	sort.Slice(keys, func(i, j int) bool { return mapKeyLess(keys[i], keys[j]) })\n	for _, key := range keys {\n		if _, named := fields[key.String()]; named {", Expect: "R09c/ucfg.reifyMap"})
+}
+
+func init() {
+	// 4069967: reifyMap validates the entries it keeps
+	keptPass := "	keys := to.MapKeys()\n	sort.Slice(keys, func(i, j int) bool { return mapKeyLess(keys[i], keys[j]) })\n	for _, key := range keys {\n		if _, named := fields[key.String()]; named {\n			continue\n		}\n		if err := tryRecursiveValidate(to.MapIndex(key), opts, nil); err != nil {\n			return raiseValidation(from.ctx, from.metadata, \"\", err)\n		}\n	}\n"
+	addControl(control{Prop: "C04", Name: "kept-map-entries-not-validated", Rule: "R04k", Kind: "mutant", Quick: true,
+		File: "reify.go", Old: keptPass, New: "	_ = sort.Strings\n", Expect: "R04k/ucfg.reifyMap/successful return"})
+	addControl(control{Prop: "C04", Name: "kept-map-entries-validated-only-with-field-validators", Rule: "R04k", Kind: "mutant",
+		File: "reify.go", Old: "		if err := tryRecursiveValidate(to.MapIndex(key), opts, nil); err != nil {\n			return raiseValidation(from.ctx, from.metadata, \"\", err)\n		}\n", New: "		if len(validators) > 0 {\n			if err := tryRecursiveValidate(to.MapIndex(key), opts, nil); err != nil {\n				return raiseValidation(from.ctx, from.metadata, \"\", err)\n			}\n		}\n", Expect: "R04k/ucfg.reifyMap/pass over kept entries"})
+	addControl(control{Prop: "C04", Name: "kept-map-entries-skipped-by-an-early-return", Rule: "R04k", Kind: "mutant",
+		File: "reify.go", Old: "	keys := to.MapKeys()\n	sort.Slice(keys, func(i, j int) bool { return mapKeyLess(keys[i], keys[j]) })\n	for _, key := range keys {\n		if _, named := fields[key.String()]; named {", New: "	if len(validators) == 0 && to.Len() == len(fields) {\n		return nil\n	}\n	keys := to.MapKeys()\n	sort.Slice(keys, func(i, j int) bool { return mapKeyLess(keys[i], keys[j]) })\n	for _, key := range keys {\n		if _, named := fields[key.String()]; named {", Expect: "R04k/ucfg.reifyMap/successful return"})
+	addControl(control{Prop: "C04", Name: "kept-map-entries-named-test-on-another-key", Rule: "R04k", Kind: "mutant",
+		File: "reify.go", Old: "		if _, named := fields[key.String()]; named {\n			continue\n		}\n		if err := tryRecursiveValidate(to.MapIndex(key)", New: "		if _, named := fields[keys[0].String()]; named {\n			continue\n		}\n		if err := tryRecursiveValidate(to.MapIndex(key)", Expect: "R04k/ucfg.reifyMap/pass over kept entries"})
+	addControl(control{Prop: "C04", Name: "kept-map-entries-inverted-test", Rule: "R04k", Kind: "refactor",
+		File: "reify.go", Old: "		if _, named := fields[key.String()]; named {\n			continue\n		}\n		if err := tryRecursiveValidate(to.MapIndex(key), opts, nil); err != nil {\n			return raiseValidation(from.ctx, from.metadata, \"\", err)\n		}\n", New: "		if _, named := fields[key.String()]; !named {\n			if err := tryRecursiveValidate(to.MapIndex(key), opts, nil); err != nil {\n				return raiseValidation(from.ctx, from.metadata, \"\", err)\n			}\n		}\n"})
+	addControl(control{Prop: "C04", Name: "kept-map-entries-all-validated", Rule: "R04k", Kind: "refactor",
+		File: "reify.go", Old: "		if _, named := fields[key.String()]; named {\n			continue\n		}\n		if err := tryRecursiveValidate(to.MapIndex(key)", New: "		if err := tryRecursiveValidate(to.MapIndex(key)"})
+}
